@@ -31,6 +31,7 @@ from vlib.core import Acc
 NAMES = ("pa", "pb", "pc")
 ABSENT = "zz"
 UNKNOWN = "unk"
+ODD_UNKNOWN = ["", 0, None, False]
 GROUP = "verif.c14.sections"
 DYN_MODULE = "verif_c14_dyn"
 NONE, BEFORE, AFTER = "-", "before", "after"
@@ -146,8 +147,12 @@ def build_digests(case, recorder):
         after = [t for p, r, t in case["edges"] if p == name and r == AFTER]
         required = case["required"][index]
         if before or after or required:
-            # an undecorated digest is a plugin without requirements
-            digest = constraints(before=before, after=after, required=required)(digest)
+            # an undecorated digest is a plugin without requirements; the constraints are
+            # "iterables of names": lists, tuples, sets or one-shot iterators alike
+            form = (len(case["edges"]) + index) % 4
+            wrap = (list, tuple, iter, lambda names: (name for name in names))[form]
+            digest = constraints(before=wrap(before), after=wrap(after),
+                                 required=required)(digest)
         digests[name] = digest
     return digests, values
 
@@ -262,7 +267,8 @@ def observe(case, distinfo=None):
     if case["logging"] and "logging" not in config:
         config["logging"] = {"version": 1}
     if case["unknown"]:
-        config[UNKNOWN] = {"x": 1}
+        odd = isinstance(case["unknown"], (list, tuple))
+        config[case["unknown"][1] if odd else UNKNOWN] = {"x": 1}
     state = _logging_state() if case["logging"] else None
     try:
         obs["result"] = load_configuration(config, plugins)
@@ -452,6 +458,11 @@ def mappings(n):
         for unknown in (False, True):
             for has_logging in (False, True):
                 yield sections, unknown, has_logging
+        if n <= 2:
+            # sections nobody claims whose names are falsy or no strings at all (YAML reads
+            # "0:", "~:", "'':" as such keys)
+            for odd in ODD_UNKNOWN:
+                yield sections, ["name", odd], False
 
 
 def nontrivial(case):
